@@ -63,6 +63,49 @@ def edit(src, qual, how):
         body = lines[b0:b1]
         orelse = lines[e0:e1]
         lines[cand.lineno - 1:e1] = [new_head] + orelse + [ind + 'else:'] + body
+    elif how == 'alias':
+        # a parameter attribute read at least twice (`p.attr`, p never re-bound, attr never stored): bind it once to a new local at the top
+        params = [a.arg for a in node.args.args if a.arg not in ('self', 'cls')]
+        stores = {x.id for x in ast.walk(node) if isinstance(x, ast.Name) and isinstance(x.ctx, (ast.Store, ast.Del))}
+        nested = [f2 for f2 in ast.walk(node) if f2 is not node and isinstance(f2, (ast.FunctionDef, ast.AsyncFunctionDef, ast.Lambda, ast.ClassDef))]
+        best = None
+        for pn in params:
+            if pn in stores:
+                continue
+            uses = {}
+            for x in ast.walk(node):
+                if isinstance(x, ast.Attribute) and isinstance(x.value, ast.Name) and x.value.id == pn:
+                    if isinstance(x.ctx, ast.Load) and x.lineno == x.end_lineno:
+                        uses.setdefault(x.attr, []).append(x)
+                    else:
+                        uses.setdefault(x.attr, []).append(None)
+            for attr, xs in uses.items():
+                if None in xs or len(xs) < 2:
+                    continue
+                if any(any(y is x for y in ast.walk(f2)) for f2 in nested for x in xs):
+                    continue
+                # method calls p.attr(...) are fine to alias only if attr is not called (keep it simple: skip called attributes)
+                if any(isinstance(c, ast.Call) and c.func in xs for c in ast.walk(node)):
+                    continue
+                best = (pn, attr, xs)
+                break
+            if best:
+                break
+        if best is None:
+            return None
+        pn, attr, xs = best
+        new_name = '_%s_%s' % (pn, attr)
+        if new_name in stores or any(isinstance(x, ast.Name) and x.id == new_name for x in ast.walk(node)):
+            return None
+        for x in sorted(xs, key=lambda x: (x.lineno, x.col_offset), reverse=True):
+            line = lines[x.lineno - 1].encode('utf-8')
+            lines[x.lineno - 1] = (line[:x.col_offset] + new_name.encode() + line[x.end_col_offset:]).decode('utf-8')
+        target = node.body[1] if has_doc and len(node.body) > 1 else (None if has_doc else first)
+        if target is None or target.lineno == node.lineno or min(x.lineno for x in xs) < target.lineno:
+            return None
+        ln = target.lineno - 1
+        ind = lines[ln][:len(lines[ln]) - len(lines[ln].lstrip())]
+        lines.insert(ln, ind + '%s = %s.%s' % (new_name, pn, attr))
     elif how == 'guard':
         # in a loop: trailing `if C: BODY` (no else) -> `if not (C): continue` + BODY dedented
         cand = None
